@@ -21,7 +21,9 @@ shared in-memory ZooKeeper (harness/zkfake.py) under a virtual clock.
   * the alerter (alerts directory) is replaced by a recorder: out of scope.
 
 History (JSON-able): list of steps
-  ['Configure', app, count, policy]   ['DeleteMonitor', app]   ['Tick', seconds]
+  ['Configure', app, count, policy]   policy 'fifo' | 'lifo' | '' (not given: the node of
+                                      a new monitor then carries NO policy field)
+  ['DeleteMonitor', app]              ['Tick', seconds]
   ['InstanceDies', app, j]            j-th oldest instance (ignored if there is none)
   ['ExternalCreate', app]             ['InstancesCreated', app] ['InstancesDeleted', app]
   ['Evaluate', {app: outcome}]
@@ -216,7 +218,9 @@ class Monitor:
             _, app, count, policy = step
             node = self.store.nodes.get(z.path.appmonitor(app))
             before = None if node is None else (node.data, node.mzxid)
-            masterapi.update_appmonitor(self.env, app, count, policy)
+            # policy '' = not given: update_appmonitor then writes no 'policy' field (a new
+            # monitor node has none; an existing one keeps what it had)
+            masterapi.update_appmonitor(self.env, app, count, policy or None)
             node = self.store.nodes[z.path.appmonitor(app)]
             # update_appmonitor writes only when the node content changes; it stores
             # what get_appmonitor returned (incl. `_id`, `suspend_until`), so the first
